@@ -19,6 +19,27 @@ VERIF = os.path.dirname(HERE)
 REPO = os.environ.get("YARL_REPO", "/repo")
 sys.path.insert(0, HERE)
 from mutants import MUTANTS  # noqa: E402
+from idiom_mutants import IDIOM_MUTANTS  # noqa: E402
+
+
+# refactoring + mutant combinations where the mutant no longer changes behaviour (so silence is right)
+EQUIVALENT = {
+    ("R20-3", "pyq-hex-regex-lower"): "R20-3 validates escapes through a table; _IS_HEX is still defined but unused",
+}
+
+
+def undecided_pairs():
+    out = set()
+    p = os.path.join(VERIF, "benign", "UNDECIDED.txt")
+    if os.path.exists(p):
+        for line in open(p):
+            if line.strip() and not line.startswith("#"):
+                name, props = line.split("::")[0].split()
+                out.update((name, x) for x in props.split(","))
+    return out
+
+
+UNDECIDED = undecided_pairs()
 
 
 def touched(diff):
@@ -51,9 +72,14 @@ def run(job):
         env = dict(os.environ, YARL_REPO=os.path.join(tmp, "repo"), YARL_VERIF_OUT=out)
         prop = props[0]
         r = subprocess.run([os.path.join(VERIF, "check"), prop], env=env, capture_output=True, text=True, timeout=900)
-        ok = r.returncode == 1 and f"[{rule}]" in r.stdout
+        ok = r.returncode == 1 and f"[{rule}" in r.stdout
         if ok:
             return label, True, ""
+        base = os.path.basename(diff)[:-5]
+        if r.returncode == 2 and (base, prop) in UNDECIDED:
+            return label, None, "re-implementation listed in benign/UNDECIDED.txt: the check gives up (exit 2)"
+        if r.returncode == 0 and (base, name) in EQUIVALENT:
+            return label, None, "equivalent mutant: " + EQUIVALENT[(base, name)]
         rules = sorted({l.split("[")[1].split("]")[0] for l in r.stdout.splitlines() if ": [" in l})
         tail = r.stdout.strip().splitlines()[-1][:160] if r.stdout.strip() else r.stderr[-160:]
         return label, False, f"{prop}: expected [{rule}], exit {r.returncode}, fired {rules}; {tail}"
@@ -66,9 +92,15 @@ def main():
     ap.add_argument("-j", type=int, default=16)
     ap.add_argument("-k", default="")
     ap.add_argument("--all-files", action="store_true", help="also mutate files the refactoring did not touch")
+    ap.add_argument("--idiom", action="store_true", help="run the hand-written bugs in the refactorings' own idioms (idiom_mutants.py)")
     a = ap.parse_args()
     base = os.path.join(VERIF, "benign")
     jobs = []
+    if a.idiom:
+        for name, ref, prop, rule, fname, old, new in IDIOM_MUTANTS:
+            if a.k in name or a.k in ref:
+                jobs.append((os.path.join(base, ref + ".diff"), (name, [prop], rule, fname, old, new)))
+        return report(jobs, a.j, strict=True)
     for f in sorted(os.listdir(base)):
         if not f.endswith(".diff"):
             continue
@@ -77,11 +109,18 @@ def main():
         for m in MUTANTS:
             if (a.all_files or m[3] in files) and (a.k in f or a.k in m[0]):
                 jobs.append((d, m))
+    return report(jobs, a.j)
+
+
+def report(jobs, j, strict=False):
     ran = bad = skipped = 0
-    with cf.ThreadPoolExecutor(a.j) as ex:
+    with cf.ThreadPoolExecutor(j) as ex:
         for label, ok, msg in ex.map(run, jobs):
             if ok is None:
                 skipped += 1
+                if strict:
+                    bad += 1
+                    print("STALE " + label + "  -- " + msg)
                 continue
             ran += 1
             if not ok:
